@@ -79,6 +79,11 @@ def run_variant(v: dict) -> dict:
         lines = p.stdout.splitlines()
         hits = [l for l in lines if l.startswith("  " + v["rule"] + " ")]
         others = sorted({l.split()[0] for l in lines if l.startswith("  R") and not l.startswith("  " + v["rule"] + " ")})
+        if v.get("expect") == "silent":
+            # behaviour-preserving edit: the check must stay silent
+            allhits = [l for l in lines if l.startswith("  R")]
+            status = "fired" if p.returncode == 0 else ("FALSE-ALARM" if p.returncode == 1 else "analysis-error")
+            return {**res, "status": status, "exit": p.returncode, "hits": len(allhits), "kind": "benign", "first": (allhits[0][:220] if allhits else next((l[:220] for l in lines if "ANALYSIS-ERROR" in l), ""))}
         if p.returncode == 1 and hits and (not v.get("expect_text") or any(v["expect_text"] in h for h in hits)):
             status = "fired"
         elif p.returncode == 2:
@@ -149,6 +154,8 @@ def for_property(pid: str) -> dict:
         "seeded_variants_fired": sum(1 for r in results if r["status"] == "fired"),
         "seeded_variants_skipped": [r["name"] for r in results if r["status"] == "skipped"],
         "seeded_variants_not_fired": [f"{r['name']} ({r['status']})" for r in results if r["status"] not in ("fired", "skipped")],
+        "benign_variants_run": sum(1 for r in results if r.get("kind") == "benign"),
+        "benign_variants_silent": sum(1 for r in results if r.get("kind") == "benign" and r["status"] == "fired"),
         "seeded_variant_results": [{k: r.get(k) for k in ("name", "rule", "status", "hits", "rules_fired", "other_rules_fired", "why")} for r in results],
     }
 
